@@ -11,7 +11,7 @@ import hmac
 import itertools
 
 from symx import core, loader, shims
-from symx.core import SI, SBytes, check, s_and, s_or, s_implies, assume, conc_value, concretize
+from symx.core import SI, SBytes, check, s_and, s_or, s_not, s_implies, assume, conc_value, concretize
 from vlib.run import Ob, sym_run, merge_runs
 
 PROPERTY = "C11"
@@ -47,9 +47,20 @@ META = {
                   "fingerprint; 1 input (script keys: genuine / last cosigner's key replaced by the foreign signer's, named by the last cosigner's or "
                   "by the foreign signer's own fingerprint), payee + candidate output with symbolic scriptPubKey hash (same three key cases; shapes: "
                   "the wallet's natural one and p2sh-p2wsh); candidate derivation fingerprints symbolic (4 bytes each) for the same-fingerprint "
-                  "records; amounts symbolic"},
+                  "records; amounts symbolic",
+            "O6": "history through module / class level state of the library: the reviewed PSBT (1 input, payee + candidate output with symbolic "
+                  "scriptPubKey hash, natural script form, symbolic amounts; declared xpubs = the wallet's genuine ones, as global xpub records or "
+                  "as hdpubkey_map) is parsed and described AFTER one other PSBT (symbolic amounts) was parsed and described in the same process: "
+                  "a self-consistent PSBT of an impostor wallet whose embedded xpub records put foreign xpubs under the cosigners' root "
+                  "fingerprints (replaced cosigners: the last one / all of them), with its change at the candidate's path or its input at the "
+                  "reviewed input's path, or the wallet's own honest PSBT; reviewed (input keys, candidate keys) in {genuine, impostor's}^2; "
+                  "plus describe called twice on the same object (candidate keys genuine / one foreign / all from one cosigner).  Demanded "
+                  "as in O1 / O2 / O5: an input with a foreign key is never summarised, an output is labelled change only if its "
+                  "scriptPubKey commits to one key per declared xpub, fee / spend / change arithmetic, the honest PSBT is summarised"},
         "thorough": {"same as quick, plus": "symbolic quorum opcodes also with symbolic fingerprints; UTXO / script alterations in both xpub modes; "
-                                            "quorum opcodes in [0x4f, 0x58]; O5 with symbolic candidate fingerprints for every global-record case"}},
+                                            "quorum opcodes in [0x4f, 0x58]; O5 with symbolic candidate fingerprints for every global-record case; "
+                                            "O6 with every non-empty set of replaced cosigners, histories of two PSBTs (impostor then own, own "
+                                            "then impostor, two different impostor wallets, the same impostor PSBT twice) and three describe calls"}},
     "outside": [
         "amounts of witness-UTXO-only inputs (native segwit) are not committed by anything the PSBT carries: the summary repeats whatever amount the "
         "PSBT states (inherent to BIP174 v0; noted, not flagged)",
@@ -62,7 +73,13 @@ META = {
         "psbt_helper.create_multisig_psbt (its address / fee cross-checks compare concrete values parsed from hex strings)",
         "O5: a PSBT whose global xpub records disagree with the supplied hdpubkey_map but whose inputs and change keys all derive from the supplied "
         "xpubs may be summarised (the supplied map decides) or rejected: neither is flagged; only the agreeing case must be summarised",
-        "which inputs share a funding transaction and at which output indices (O4), and which global xpub records exist (O5), are enumerated shapes"],
+        "which inputs share a funding transaction and at which output indices (O4), and which global xpub records exist (O5), are enumerated shapes",
+        "O6: histories are enumerated shapes (which wallet's PSBT came before, at which paths) with concrete fingerprints and concrete candidate "
+        "metadata; histories longer than 2 PSBTs, histories of PSBTs that are rejected half-way, an earlier describe with a different hdpubkey_map "
+        "argument (a reviewer who serves two wallets whose root fingerprints collide), describe calls interleaved on two live objects, and state "
+        "carried by other entry points (signing, finalising, psbt_helper) are not covered",
+        "O6 judgement: 'the honest PSBT is summarised' (already O1's reading) is also demanded after a history; the property text only says what a "
+        "summary must satisfy and what must be rejected, the unchanged code summarises every honest PSBT of the bound"],
     "stubs": ["sha256 / ripemd160 (hash160, hash256) are uninterpreted functions on symbolic input, real on concrete input",
               "concrete secp256k1 results (P + k*G, SEC decompression) are memoised across paths and across replays: the first call runs the real code",
               "base58check / bech32 encoding of a symbolic scriptPubKey returns an opaque non-empty string", "print() empty",
@@ -71,6 +88,9 @@ META = {
     "assumptions": ["collision-resistance instances (O3): an altered previous transaction does not hash256 to the original txid; an altered redeem / "
                     "witness script does not hash160 / sha256 to the original's digest",
                     "sum(inputs) > 0 (with a zero total the real code raises ZeroDivisionError while computing the fee percentage)",
+                    "O6: every explored path starts from the library's module / class level state as it is right after import (symx.loader resets "
+                    "it per path), i.e. the history of a path is exactly the calls the path makes; a history witness is replayed in an "
+                    "interpreter of its own for the same reason",
                     "the independent BIP32 / secp256k1 / BIP174 / multisig-script layout written in checks/c11.py is the reference (the native library "
                     "derives the same keys: every honest PSBT built by it is accepted by the real parser)"],
 }
@@ -78,7 +98,8 @@ META = {
 MANIFEST = {"technique": "symbolic execution of the real PSBT.parse / PSBTIn.validate / PSBTOut.validate / PSBT.describe_basic_multisig on byte strings "
                          "written by an independent BIP174 serialiser, with symbolic amounts, scriptPubKey hash bytes, fingerprints and opcodes; hashes "
                          "as uninterpreted functions; z3 decides every path (LIA for the amount sums, bit-vectors elsewhere); the oracle re-derives "
-                         "the cosigner keys with an independent BIP32 / secp256k1 implementation"}
+                         "the cosigner keys with an independent BIP32 / secp256k1 implementation; history obligations run several parse + "
+                         "describe calls on one path (library state reset per path) and replay each witness in an interpreter of its own"}
 
 MAX_SATS = 21 * 10 ** 14
 
@@ -219,6 +240,31 @@ def wallet(kind, n):
     if k not in _WALLETS:
         _WALLETS[k] = ([Cosigner(f"{kind}-{i}", kind) for i in range(n)], Cosigner(f"{kind}-foreign", kind))
     return _WALLETS[k]
+
+
+_IMPOSTORS = {}
+
+
+def impostors(kind, n):
+    """n foreign signers F_0..F_{n-1}; F_j is the one that stands in for cosigner j in an 'imp:<mask>' key case (F_{n-1} is the
+    wallet's foreign signer)"""
+    k = (kind, n)
+    if k not in _IMPOSTORS:
+        _IMPOSTORS[k] = [Cosigner(f"{kind}-foreign-{j}", kind) for j in range(n - 1)] + [wallet(kind, n)[1]]
+    return _IMPOSTORS[k]
+
+
+def imp_mask(case):
+    """key / global-record case 'imp:<mask>': for every bit j of mask, cosigner j's key (xpub) is replaced by foreign signer F_j's
+    while the metadata keeps naming cosigner j's root fingerprint and path.  None for any other case"""
+    if isinstance(case, str) and case.startswith("imp:"):
+        return int(case[4:])
+    return None
+
+
+def imp_signers(kind, n, mask):
+    cos = wallet(kind, n)[0]
+    return [impostors(kind, n)[j] if (mask >> j) & 1 else c for j, c in enumerate(cos)]
 
 
 # ======================================================================================== independent spec: byte layouts
@@ -396,6 +442,10 @@ def out_keyset(sc, o):
     elif kc == "drop":
         named = [(c.key(rel), i, rel) for i, c in enumerate(cos[:-1])]
         keys = [k for k, _, _ in named]
+    elif imp_mask(kc) is not None:
+        # the keys of the cosigners in the mask come from foreign signers; the metadata names the cosigners
+        named = [(s.key(rel), i, rel) for i, s in enumerate(imp_signers(sc["kind"], sc["n"], imp_mask(kc)))]
+        keys = [k for k, _, _ in named]
     else:
         raise KeyError(kc)
     return sorted(keys), sorted(named, key=lambda t: t[0])
@@ -413,6 +463,8 @@ def in_signers(sc, inp):
     if kc == "foreign_named":
         # ... the metadata names the foreign signer's own fingerprint
         return [(c, c) for c in cos[:-1]] + [(foreign, foreign)]
+    if imp_mask(kc) is not None:
+        return list(zip(imp_signers(sc["kind"], sc["n"], imp_mask(kc)), cos))
     raise KeyError(kc)
 
 
@@ -442,6 +494,8 @@ def global_records(sc, vals):
         return honest[:-1] + [(fx, vals["gx_fp"], foreign.base)]
     if gx == "extra_symfp":    # an extra foreign xpub record under a solver-chosen fingerprint
         return honest + [(fx, vals["gx_fp"], foreign.base)]
+    if imp_mask(gx) is not None:   # the records of the cosigners in the mask carry foreign xpubs under the cosigners' fingerprints
+        return [(s.xpub.raw(), c.fp, c.base) for s, c in zip(imp_signers(sc["kind"], sc["n"], imp_mask(gx)), cos)]
     raise KeyError(gx)
 
 
@@ -476,7 +530,8 @@ def build(sc, vals):
     tam = vals.get("tamper", {})
     model = {"ins": [], "outs": []}
     if sc["mode"] == "xpubs":
-        model["xpubs"] = [(c.xpub.raw(), c.fp, c.base) for c in cos]
+        # the PSBT's own global xpub records are the declared cosigner xpubs (sc["gx"], default: the wallet's)
+        model["xpubs"] = global_records(sc, vals)
     elif sc["mode"] == "pinned":
         # the reviewer passes hdpubkey_map for all n cosigners AND the PSBT carries global xpub records (possibly tampered)
         model["xpubs"] = global_records(sc, vals)
@@ -725,8 +780,9 @@ REJECTIONS = {"ValueError", "KeyError", "SuspiciousTransaction", "MixedNetwork",
               "ZeroDivisionError"}
 
 
-def run_real(sc, raw, mods=None, native=False):
-    """parse + describe with the real code.  Returns ('ok', summary dict) or ('rejected', exception class name)"""
+def run_real(sc, raw, mods=None, native=False, calls=1):
+    """parse + describe with the real code (`calls` > 1: describe is called that many times on the SAME parsed object, the last
+    result counts).  Returns ('ok', summary dict) or ('rejected', exception class name)"""
     cos, _ = wallet(sc["kind"], sc["n"])
     if native:
         from io import BytesIO
@@ -745,10 +801,11 @@ def run_real(sc, raw, mods=None, native=False):
         dct = SymKeyDict
     try:
         p = PSBT.parse(BytesIO(raw), network="testnet")
-        if sc["mode"] in ("map", "pinned"):
-            d = p.describe_basic_multisig(hdpubkey_map=dct({c.fp.hex(): mk(c) for c in cos}))
-        else:
-            d = p.describe_basic_multisig()
+        for _ in range(calls):
+            if sc["mode"] in ("map", "pinned"):
+                d = p.describe_basic_multisig(hdpubkey_map=dct({c.fp.hex(): mk(c) for c in cos}))
+            else:
+                d = p.describe_basic_multisig()
     except (core.Unsupported, core.Inconclusive):
         raise
     except Exception as e:
@@ -789,9 +846,9 @@ def from_json(v):
 
 # ======================================================================================== obligations
 
-def _amounts(n_in, n_out):
-    return {"in_amt": [SI.var(f"in{i}.sats", 0, MAX_SATS) for i in range(n_in)],
-            "out_amt": [SI.var(f"out{i}.sats", 0, MAX_SATS) for i in range(n_out)]}
+def _amounts(n_in, n_out, prefix=""):
+    return {"in_amt": [SI.var(f"{prefix}in{i}.sats", 0, MAX_SATS) for i in range(n_in)],
+            "out_amt": [SI.var(f"{prefix}out{i}.sats", 0, MAX_SATS) for i in range(n_out)]}
 
 
 def _witness(claim, sc, vals, extra=None):
@@ -834,6 +891,10 @@ def facts(sc, vals):
         f["input_keys"] = [inp.get("keys", "genuine") for inp in sc["ins"]]
     if any(inp.get("fund") is not None for inp in sc["ins"]):
         f["shared_funding"] = [[inp.get("fund"), inp.get("vout", 0)] for inp in sc["ins"]]
+    if sc.get("history") or sc.get("calls", 1) > 1:
+        f["history"] = [h.get("name") for h in sc.get("history", [])]
+        f["describe_calls"] = sc.get("calls", 1)
+        f["input_keys"] = [inp.get("keys", "genuine") for inp in sc["ins"]]
     f["tampered"] = sorted(vals.get("tamper", {}).keys())
     for i, t in vals.get("tamper", {}).get("both_utxo", {}).items():
         # which field of the additional witness-UTXO record differs from output 0 of the previous transaction
@@ -1187,7 +1248,8 @@ def _ob_pinned(kind, m, n, group, sym_fp):
                 twin = kin == "genuine" and kout == "genuine" and gx not in ("swap_last", "dup_fp_first")
                 # a tree that lets PSBT-supplied records into the lookup table hashes symbolic fingerprints (one path per value, without
                 # end): bounded -- on the current tree a scenario has at most 23 paths
-                runs.append(sym_run(lambda: _pinned_path(sc), expect_classes=["ok:change"] if twin else None, max_paths=120, wall_s=30))
+                # (wall budget: the first scenario of a worker also pays the cold EC derivations; 30 s was exceeded on a loaded machine)
+                runs.append(sym_run(lambda: _pinned_path(sc), expect_classes=["ok:change"] if twin else None, max_paths=120, wall_s=150))
         if not sym_fp and gx == "honest":
             # twin: summary arithmetic of an honest 2-input PSBT with change, xpubs supplied both ways and agreeing
             sc = {"kind": kind, "m": m, "n": n, "mode": "pinned", "gx": gx, "ins": [{"rel": [0, 0]}, {"rel": [0, 1]}],
@@ -1198,6 +1260,121 @@ def _ob_pinned(kind, m, n, group, sym_fp):
                    "global xpub records": list(GX_GROUPS[group]), "(input keys, candidate output keys)": PINNED_KEYS,
                    "candidate output": "scriptPubKey hash bytes symbolic", "derivation fingerprints of the candidate": "symbolic" if sym_fp else "as the key case states",
                    "scenarios": len(runs)}
+    return r
+
+
+# ---------------------------------------------------------------------------------------- O6 history: earlier describe calls in the process
+
+def _natural(kind):
+    return ("p2sh", "redeem") if kind == "p2sh" else ("p2wsh", "witness")
+
+
+def _is_honest(sc):
+    """inputs and candidate output are built from the declared wallet's own keys, in the wallet's natural script form"""
+    o = sc["outs"][1]
+    return o["keys"] == "genuine" and (o["spk"], o["attach"]) == _natural(sc["kind"]) and \
+        all(inp.get("keys", "genuine") == "genuine" for inp in sc["ins"])
+
+
+def _history_path(sc):
+    """The PSBT under review (inputs: the wallet's own keys or some keys from foreign signers that the metadata attributes to the
+    cosigners; payee + candidate output with a solver-chosen scriptPubKey hash) is described AFTER the PSBTs of sc["history"] were
+    parsed and described in the same process (their outcomes are part of the outcome class, nothing is demanded of them), and / or
+    describe is called sc["calls"] times on the same object.  What the property demands of the summary does not depend on what
+    was described before: the same soundness conditions as O2 / O5 plus 'the honest PSBT is summarised' as in O1."""
+    o = sc["outs"][1]
+    vals = _amounts(1, 2)
+    assume(vals["in_amt"][0] > 0)
+    vals["h"] = {"1": SBytes.sym("spk_hash", 20 if o["spk"] == "p2sh" else 32)}
+    vals["hist"] = []
+    for t, hsc in enumerate(sc.get("history", [])):
+        hv = _amounts(len(hsc["ins"]), len(hsc["outs"]), prefix=f"h{t}.")
+        assume(sum(hv["in_amt"]) > 0)
+        vals["hist"].append(hv)
+    trail = []
+    for hsc, hv in zip(sc.get("history", []), vals["hist"]):
+        hres, hd = run_real(hsc, spec_psbt(build(hsc, hv)[0]))
+        trail.append("ok" if hres == "ok" else "rejected")
+    pre = ",".join(trail) + "|"
+    model, info = build(sc, vals)
+    kind, d = run_real(sc, spec_psbt(model), calls=sc.get("calls", 1))
+    w = _witness("history", sc, vals)
+    oi = info["outs"][1]
+    if kind == "rejected":
+        if _is_honest(sc):
+            # the honest PSBT (scriptPubKey committing to the attached genuine script) is summarised whatever was described before
+            check(s_not(attached_commit(oi)), f"honest PSBT rejected ({d}) after other PSBTs were described in the same process", witness=w)
+        else:
+            check(True, "rejected")
+        return pre + "rejected:" + d
+    foreign_in = [i for i, inp in enumerate(sc["ins"]) if inp.get("keys", "genuine") != "genuine"]
+    check(not foreign_in, "an input whose script holds a key that no declared cosigner xpub derives was summarised as the wallet's", witness=w)
+    check(d["outputs_desc"][0]["is_change"] is False, "payee output labelled change", witness=w)
+    check(d["total_input_sats"] == vals["in_amt"][0], "total_input_sats", witness=w)
+    check(d["tx_fee_sats"] == vals["in_amt"][0] - sum(vals["out_amt"]), "tx_fee_sats != sum(inputs) - sum(outputs)", witness=w)
+    check(d["spend_sats"] + d["change_sats"] + d["tx_fee_sats"] == vals["in_amt"][0], "spend + change + fee != input", witness=w)
+    if d["outputs_desc"][1]["is_change"]:
+        check(commit_cond(sc, oi), "output labelled change, but its scriptPubKey does not commit to an m-of-n script with one key per declared "
+                                   "cosigner xpub at the stated path", witness=w)
+        check(d["change_sats"] == vals["out_amt"][1], "change_sats != amount of the change output", witness=w)
+        return pre + "ok:change"
+    check(d["change_sats"] == 0, "change_sats without a change output", witness=w)
+    return pre + "ok:spend"
+
+
+def history_scenarios(kind, m, n, mode, thorough=False):
+    """(name, scenario): the PSBT under review declares the wallet's genuine xpubs (embedded records or hdpubkey_map); the history
+    holds PSBTs of an impostor wallet (foreign xpubs embedded under the cosigners' fingerprints, self-consistent) and / or the
+    wallet's own honest PSBTs"""
+    spk, attach = _natural(kind)
+    last, full = 1 << (n - 1), (1 << n) - 1
+    R = [1, 2]
+    cand = lambda keys, rel: {"type": "change", "spk": spk, "attach": attach, "keys": keys, "rel": rel}  # noqa
+
+    def psbt(name, keys, in_rel, ch_rel):
+        h = {"name": name, "kind": kind, "m": m, "n": n, "mode": "xpubs", "ins": [{"rel": in_rel, "keys": keys}],
+             "outs": [{"type": "spend"}, cand(keys, ch_rel)]}
+        if keys != "genuine":
+            h["gx"] = keys
+        return h
+
+    for mask in (range(1, full + 1) if thorough else (last, full)):
+        K = f"imp:{mask}"
+        hists = [[psbt("impostor wallet, change at the candidate's path", K, [0, 3], R)],
+                 [psbt("impostor wallet, input at the reviewed input's path", K, [0, 0], [1, 5])],
+                 [psbt("own honest PSBT, change at the candidate's path", "genuine", [0, 3], R)]]
+        if thorough:
+            own = psbt("own honest PSBT, same paths", "genuine", [0, 0], R)
+            imp = psbt("impostor wallet, same paths", K, [0, 0], R)
+            other = psbt("another impostor wallet, same paths", f"imp:{full ^ mask or full}", [0, 0], R)
+            hists += [[imp, own], [own, imp], [other, imp], [imp, imp]]
+        for hist in hists:
+            for kin, kout in (("genuine", "genuine"), ("genuine", K), (K, "genuine"), (K, K)):
+                yield {"kind": kind, "m": m, "n": n, "mode": mode, "ins": [{"rel": [0, 0], "keys": kin}],
+                       "outs": [{"type": "spend"}, cand(kout, R)], "history": hist}
+    # describe called repeatedly on one object, no other history
+    for calls in ((2,) if not thorough else (2, 3)):
+        for kin, kout in (("genuine", "genuine"), ("genuine", f"imp:{last}"), (f"imp:{last}", "genuine"), ("genuine", "one")):
+            yield {"kind": kind, "m": m, "n": n, "mode": mode, "ins": [{"rel": [0, 0], "keys": kin}],
+                   "outs": [{"type": "spend"}, cand(kout, R)], "history": [], "calls": calls}
+
+
+def _ob_history(kind, m, n, mode, thorough=False):
+    runs = []
+    for sc in history_scenarios(kind, m, n, mode, thorough):
+        allok = ",".join("ok" for _ in sc["history"]) + "|"
+        r = sym_run(lambda: _history_path(sc), expect_classes=[allok + "ok:change"] if _is_honest(sc) else None, max_paths=400, wall_s=240)
+        # every PSBT of the history is self-consistent: the scenario is what it claims only if all of them were summarised
+        if not any(k.startswith("'" + allok) for k in r["classes"]) and not r["violations"]:
+            r["inconclusive"].append("reachability twin: no path on which every PSBT of the history was summarised")
+        runs.append(r)
+    r = merge_runs(runs)
+    r["sample"] = {"wallet": f"{kind} {m}-of-{n}", "declared xpubs via": "PSBT global xpub records" if mode == "xpubs" else "hdpubkey_map",
+                   "history": "1 earlier PSBT parsed + described in the same process" + (" (thorough: 2)" if thorough else "") +
+                              ": impostor wallet (foreign xpubs under the cosigners' fingerprints) / the wallet's own; or describe called "
+                              "repeatedly on the reviewed object",
+                   "reviewed PSBT": "input and candidate keys genuine / from the impostor wallet; candidate scriptPubKey hash symbolic; all amounts "
+                                    "(history included) symbolic", "scenarios": len(runs)}
     return r
 
 
@@ -1280,7 +1457,83 @@ def utxo_facts(sc, model):
     return res, problems
 
 
+def _history_native(w, with_history=True):
+    """runs in a FRESH interpreter (see _history_replay): the history of the witness, then the reviewed PSBT, on the native
+    library; judged against the independent oracle on plain values"""
+    sc = w["sc"]
+    vals = from_json(w["vals"])
+    cos, _ = wallet(sc["kind"], sc["n"])
+    trail = []
+    if with_history:
+        for hsc, hv in zip(sc.get("history", []), vals.get("hist", [])):
+            hres, hd = run_real(hsc, bytes(spec_psbt(build(hsc, hv)[0])), native=True)
+            trail.append(f"{hsc.get('name')}: " + ("summarised" if hres == "ok" else f"rejected with {hd}"))
+    model, info = build(sc, vals)
+    calls = sc.get("calls", 1) if with_history else 1
+    res, d = run_real(sc, bytes(spec_psbt(model)), native=True, calls=calls)
+    oi = info["outs"][1]
+    script, h = bytes(oi["script"]), bytes(oi["h"])
+    commits_attached = h == (_h160(script) if oi["spk"] == "p2sh" else _sha256(script))
+    bad = []
+    if res == "rejected":
+        if _is_honest(sc) and commits_attached and bool(commit_cond(sc, oi)):
+            bad.append(f"the wallet's own honest PSBT is rejected with {d}")
+        return {"violated": bool(bad), "verdict": f"rejected with {d}", "bad": bad, "trail": trail}
+    for i, (e, inp) in enumerate(zip(model["ins"], sc["ins"])):
+        have = script_keys(bytes(e.get("redeem") or e.get("witness")))
+        want = sorted(c.key(inp["rel"]) for c in cos)
+        if sorted(have) != want:
+            strangers = [k.hex() for k in have if k not in want]
+            bad.append(f"input {i} summarised as the wallet's although its script key(s) {strangers} derive from none of the declared "
+                       f"cosigner xpubs at the stated path")
+    for k, oinfo in enumerate(info["outs"]):
+        if d["outputs_desc"][k]["is_change"] and (oinfo is None or not commit_cond(sc, oinfo)):
+            bad.append(f"output {k} ({d['outputs_desc'][k]['addr']}, {d['outputs_desc'][k]['sats']} sats) is labelled change, but no m-of-n script "
+                       f"with one key per declared cosigner xpub at the stated paths hashes to its scriptPubKey (hash "
+                       f"{bytes(oinfo['h']).hex() if oinfo else None}, attached script keys "
+                       f"{[x.hex()[:16] + '..' for x in script_keys(bytes(oinfo['script']))] if oinfo else None})")
+    tin, tout = sum(vals["in_amt"]), sum(vals["out_amt"])
+    want_change = sum(vals["out_amt"][k] for k in range(len(sc["outs"])) if d["outputs_desc"][k]["is_change"])
+    if d["total_input_sats"] != tin or d["tx_fee_sats"] != tin - tout or d["spend_sats"] + d["change_sats"] + d["tx_fee_sats"] != tin \
+            or d["change_sats"] != want_change:
+        bad.append(f"summary arithmetic: inputs {d['total_input_sats']} (stated {tin}), fee {d['tx_fee_sats']}, spend {d['spend_sats']}, "
+                   f"change {d['change_sats']}")
+    return {"violated": bool(bad), "verdict": f"summarised: change {d['change_sats']} sats to {d['change_addr'] or '-'}, spend {d['spend_sats']}, "
+                                               f"fee {d['tx_fee_sats']}", "bad": bad, "trail": trail}
+
+
+def _history_child(w, with_history):
+    """one witness in an interpreter of its own: replays of other witnesses in the same process would be history too"""
+    import json
+    import os
+    import subprocess
+    import sys
+    verif = os.path.dirname(os.path.dirname(os.path.abspath(__file__)))
+    code = ("import sys, json; sys.path[:0] = [%r, %r]; from checks import c11; a = json.load(sys.stdin); "
+            "print('\\n' + json.dumps(c11._history_native(a['w'], a['with_history'])))" % (verif, loader.REPO))
+    cp = subprocess.run([sys.executable, "-c", code], input=json.dumps({"w": w, "with_history": with_history}), capture_output=True,
+                        text=True, timeout=1200)
+    try:
+        return json.loads(cp.stdout.strip().splitlines()[-1])
+    except Exception:
+        return {"violated": None, "error": "history replay subprocess failed: " + cp.stderr[-600:]}
+
+
+def _history_replay(w):
+    r = _history_child(w, True)
+    if r.get("violated") is None:
+        return r
+    obs = f"after [{'; '.join(r['trail']) or 'no other PSBT'}]" + (f" and {w['sc'].get('calls')} describe calls on the same object"
+                                                                     if w["sc"].get("calls", 1) > 1 else "") + f": {r['verdict']}"
+    if r["violated"]:
+        alone = _history_child(w, False)
+        obs += " -- " + "; ".join(r["bad"]) + f" -- the same PSBT described once in a fresh process: {alone.get('verdict', alone.get('error'))}"
+    return {"violated": r["violated"], "observed": obs}
+
+
 def replay_summary(w):
+    if w.get("claim") == "history":
+        return _history_replay(w)
     sc = w["sc"]
     vals = from_json(w["vals"])
     model, info = build(sc, vals)
@@ -1395,7 +1648,7 @@ def _signature(v):
         if o:
             outs.append((o["spk"], o["attach"], o["keys"], o["spk_commits_to_attached_script"], o["distinct_fingerprints"] < o["named"],
                          o["script_keys"] == o["n_op"] - 80, o["m_op"], o["commit"]))
-    return repr((v.get("label"), w.get("what"), outs))
+    return repr((v.get("label"), w.get("what"), outs, f.get("history"), f.get("describe_calls"), f.get("input_keys") if f.get("history") is not None else None))
 
 
 def _representatives(r, per=2):
@@ -1435,6 +1688,10 @@ def ob_pinned(**k):
     return _representatives(_ob_pinned(**k))
 
 
+def ob_history(**k):
+    return _representatives(_ob_history(**k), per=1)
+
+
 WALLETS = [("p2sh", 1, 2), ("p2sh", 2, 3), ("p2wsh", 1, 2), ("p2wsh", 2, 3)]
 KEYCASES = ["genuine", "one", "two_of_one_aba", "foreign_replace", "foreign_add", "drop"]
 
@@ -1444,6 +1701,7 @@ def obligations(tier):
     # the spec wallets are derived once here (the runner forks its workers after this call)
     for kind, m, n in WALLETS:
         wallet(kind, n)
+        impostors(kind, n)
     obs = []
     for kind, m, n in WALLETS:
         obs.append(Ob("O1-arith", ob_arith, {"kind": kind, "m": m, "n": n, "n_ins": (1, 2, 3), "n_outs": (1, 2, 3)}, replay="summary", budget_s=1200))
@@ -1465,4 +1723,7 @@ def obligations(tier):
     for kind, m, n in WALLETS:
         for group, sym_fp in (("agree", False), ("same_fp", False), ("sym_fp", False), ("same_fp", True)) + ((("agree", True), ("sym_fp", True)) if not q else ()):
             obs.append(Ob("O5-pinned-xpubs", ob_pinned, {"kind": kind, "m": m, "n": n, "group": group, "sym_fp": sym_fp}, replay="summary", budget_s=1200))
+    for kind, m, n in WALLETS:
+        for mode in ("xpubs", "map"):
+            obs.append(Ob("O6-history", ob_history, {"kind": kind, "m": m, "n": n, "mode": mode, "thorough": not q}, replay="summary", budget_s=1500))
     return obs
